@@ -7,8 +7,9 @@ for d in "$HERE"/seeded/*/; do
   prop=$(python3 -c "import json,sys; print(json.load(open('$d/meta.json'))['property'])")
   patch="$d/patch.diff"; [ -f "$d/patch-on-current-tree.diff" ] && patch="$d/patch-on-current-tree.diff"
   git -C /repo apply --check "$patch" 2>/dev/null || { echo "$name: patch does not apply to the current tree (see meta.json)"; continue; }
+  note=$(python3 -c "import json; print('(expected miss, see meta.json) ' if json.load(open('$d/meta.json')).get('expected_miss') else '')")
   out=$("$HERE/tools/try_mutant.sh" "$patch" quick "$prop" -- "$@" 2>&1)
-  echo "$name [$prop]: $(echo "$out" | grep -E '^== ' | sed 's/^== //') $(echo "$out" | grep -E '^violation|^Miri engine' | head -1 | cut -c1-110)"
+  echo "$name [$prop]: $note$(echo "$out" | grep -E '^== ' | sed 's/^== //') $(echo "$out" | grep -E '^violation|^Miri engine' | head -1 | cut -c1-110)"
 done
 # negative controls: behaviour-preserving refactors, every check must pass
 for d in "$HERE"/seeded/controls/*/; do
